@@ -542,6 +542,47 @@ func vhRetrieve(maxKids int, deep bool) {
 	if deep {
 		sp.AllowMissingAttributes = vFlag("allowMissingAttributes")
 	}
+	if vFlag("earlier-rejected-response") {
+		// the process has just turned down another response — one whose conditions carried OneTimeUse and a
+		// ProxyRestriction, rejected late (no AttributeStatement): nothing of it may show in the next summary
+		// (built from the SP's own configuration values and constants so that it takes one path to the late rejection)
+		esig := vhSigValid
+		if skip {
+			esig = vhSigNone
+		}
+		er := etree.NewElement("samlp:Response")
+		er.CreateAttr("xmlns:samlp", "urn:oasis:names:tc:SAML:2.0:protocol")
+		er.CreateAttr("xmlns:saml", "urn:oasis:names:tc:SAML:2.0:assertion")
+		er.CreateAttr("ID", "_earlier-response")
+		er.CreateAttr("Version", "2.0")
+		er.CreateAttr("vx-sig", vhSigNames[esig])
+		er.CreateAttr("vx-name", "earlier")
+		vhText2(er, "saml:Issuer", sp.IdentityProviderIssuer)
+		if esig != vhSigNone {
+			er.CreateElement("ds:Signature").CreateAttr("xmlns:ds", "http://www.w3.org/2000/09/xmldsig#")
+		}
+		er.CreateElement("samlp:Status").CreateElement("samlp:StatusCode").CreateAttr("Value", "urn:oasis:names:tc:SAML:2.0:status:Success")
+		ea := er.CreateElement("saml:Assertion")
+		ea.CreateAttr("ID", "_earlier-assertion")
+		ea.CreateAttr("Version", "2.0")
+		vhText2(ea, "saml:Issuer", sp.IdentityProviderIssuer)
+		esub := ea.CreateElement("saml:Subject")
+		vhText2(esub, "saml:NameID", "earlier@example.com")
+		esc := esub.CreateElement("saml:SubjectConfirmation")
+		esc.CreateAttr("Method", "urn:oasis:names:tc:SAML:2.0:cm:bearer")
+		escd := esc.CreateElement("saml:SubjectConfirmationData")
+		escd.CreateAttr("Recipient", sp.AssertionConsumerServiceURL)
+		escd.CreateAttr("NotOnOrAfter", "2200-01-01T00:00:00Z")
+		econd := ea.CreateElement("saml:Conditions")
+		econd.CreateAttr("NotBefore", "1990-01-01T00:00:00Z")
+		econd.CreateAttr("NotOnOrAfter", "2200-01-01T00:00:00Z")
+		econd.CreateElement("saml:OneTimeUse")
+		epr := econd.CreateElement("saml:ProxyRestriction")
+		epr.CreateAttr("Count", "2")
+		vhText2(epr, "saml:Audience", "urn:earlier:proxy")
+		_, eerr := sp.RetrieveAssertionInfo(vEncodeDoc("wire0", er, 0))
+		vDebugErr("earlier", eerr)
+	}
 	s := vhSSOScenario(maxKids, 3) // assertions, encrypted assertions, encrypted junk
 	enc := vEncodeDoc("wire", s.root, 0)
 
